@@ -376,6 +376,17 @@ func (f *frame) pureCall(in *ssa.Call) {
 			h := x.havocPure("nolast", "Int")
 			setT(h, h)
 			return
+		case "lastret":
+			// integer result of the most recent call of the named callee on this path (ghost)
+			if c, ok := in.Call.Args[0].(*ssa.Const); ok && c.Value != nil {
+				cn := "Ghost_ret_" + sanitize(constant.StringVal(c.Value))
+				x.comp(cn, "Int")
+				setT(f.mem[0].heapOf(cn, "Int"), f.mem[1].heapOf(cn, "Int"))
+				return
+			}
+			x.errorf("lastret needs a string literal")
+			setT("0", "0")
+			return
 		case "ncalls":
 			// number of calls of the named callee completed so far on this path (ghost counter)
 			if c, ok := in.Call.Args[0].(*ssa.Const); ok && c.Value != nil {
